@@ -31,13 +31,22 @@ FAMILIES = os.environ["VERIF_FAMILIES"].split(",") if os.environ.get("VERIF_FAMI
 CFG = gen.Cfg(max_depth=3, leaf_dtypes=("int64", "float64", "bool", "int32", "uint8", "float32"), nan=False)
 
 
+# a third of the cases: list-rich types and an operation that takes an axis, so that deep axes over non-canonical list
+# nodes are met often (added after the seeded change C02-a - combinations at axis >= 2 below an offsets[0] != 0 list - was missed)
+CFG_DEEP = gen.Cfg(max_depth=3, leaf_dtypes=("int64", "float64", "int32"), nan=False, records=False, unions=False, strings=False, unknown=False,
+                   top_list=True, zero_field_records=False)
+AXIS_FAMILIES = ["num", "flatten", "localindex", "reduce", "sort", "argsort", "rpad", "rpad_and_clip", "combinations"]
+
+
 @st.composite
 def strategy_(draw):
-    T = draw(gen.types(CFG))
-    vals = draw(gen.values(T, CFG))
-    a = draw(gen.encode(T, vals, CFG))
-    b = gen.canonical(T, vals) if draw(st.integers(0, 3)) > 0 else draw(gen.encode(T, vals, CFG))
-    spec = draw(ops.draw_op(T, vals, FAMILIES))
+    deep = FAMILIES is None and draw(st.integers(0, 2)) == 0
+    cfg = CFG_DEEP if deep else CFG
+    T = draw(gen.types(cfg))
+    vals = draw(gen.values(T, cfg))
+    a = draw(gen.encode(T, vals, cfg))
+    b = gen.canonical(T, vals) if draw(st.integers(0, 3)) > 0 else draw(gen.encode(T, vals, cfg))
+    spec = draw(ops.draw_op(T, vals, AXIS_FAMILIES if deep else FAMILIES))
     return {"a": a, "b": b, "spec": spec}
 
 
